@@ -350,6 +350,14 @@ func (e *c10env) ops() []c10op {
 			}()
 			return nil, t.e, false
 		}},
+		{"Close() a throwaway logger that never got writers", func(e *c10env, t *mnode) (*mnode, *slog.Entry, bool) {
+			// a request-scoped logger of some other part of the application, made with package-level New, used and closed
+			// (`defer l.Close()`): Close is an operation on THAT logger - every other logger prints where it printed
+			e.seq++
+			x := slog.New(fmt.Sprintf("request%d", e.seq))
+			x.Close()
+			return nil, t.e, false
+		}},
 		{"WithJSONMode", func(e *c10env, t *mnode) (*mnode, *slog.Entry, bool) {
 			b, m := modeArgs(r)
 			ent := t.e.WithJSONMode(b...)
@@ -382,7 +390,7 @@ func (e *c10env) ops() []c10op {
 			return n, ent, false
 		}},
 		{"WithLevel", func(e *c10env, t *mnode) (*mnode, *slog.Entry, bool) {
-			l := gen.Pick(r, []slog.Level{slog.ErrorLevel, slog.WarnLevel, slog.InfoLevel, slog.DebugLevel, slog.TraceLevel, slog.AlwaysLevel, slog.PanicLevel, slog.Level(1<<31 + 20), slog.Level(-(1 << 40))})
+			l := gen.Pick(r, []slog.Level{slog.ErrorLevel, slog.WarnLevel, slog.InfoLevel, slog.DebugLevel, slog.TraceLevel, slog.AlwaysLevel, slog.PanicLevel, slog.Level(1<<31 + 20), slog.Level(-(1 << 40)), lvlFgOnly, lvlNoClr, lvlCyr})
 			ent := t.e.WithLevel(l)
 			n := e.withChild(t, ent)
 			n.level = l
@@ -533,7 +541,7 @@ func (e *c10env) ops() []c10op {
 			return nil, ent, true
 		}},
 		{"SetLevel", func(e *c10env, t *mnode) (*mnode, *slog.Entry, bool) {
-			l := gen.Pick(r, []slog.Level{slog.ErrorLevel, slog.WarnLevel, slog.InfoLevel, slog.DebugLevel, slog.TraceLevel, slog.AlwaysLevel, slog.FatalLevel, slog.Level(1<<31 + 20), slog.Level(1 << 40), slog.Level(-(1 << 35))})
+			l := gen.Pick(r, []slog.Level{slog.ErrorLevel, slog.WarnLevel, slog.InfoLevel, slog.DebugLevel, slog.TraceLevel, slog.AlwaysLevel, slog.FatalLevel, slog.Level(1<<31 + 20), slog.Level(1 << 40), slog.Level(-(1 << 35)), lvlFgOnly, lvlFgBg, lvlNoClr})
 			ent := t.e.SetLevel(l)
 			t.level = l
 			return nil, ent, true
@@ -764,6 +772,7 @@ func (e *c10env) ctxProbe(n *mnode) (clause, detail string) {
 }
 
 func c10tree(c *Ctx) {
+	registerCustomLevels() // severities of the application, some with a treated-as entry: as thresholds they are numbers like any other
 	fds, err := captureFds()
 	if err != nil {
 		c.R.Violation(-1, "harness", "C10/harness", err.Error(), nil)
@@ -840,6 +849,9 @@ func c10tree(c *Ctx) {
 			c.R.JournalNote(history[len(history)-1])
 			created, ret, mutates := op.apply(e, t)
 			c.R.Add("operations", 1)
+			if op.name == "Close() a throwaway logger that never got writers" {
+				c.R.Add("Close_calls_on_a_logger_that_never_got_writers", 1)
+			}
 			if strings.HasPrefix(e.skipClash, "WithWriter(nil) New(") {
 				fail("new-lookup", strings.TrimPrefix(e.skipClash, "WithWriter(nil) "))
 				return
